@@ -14,4 +14,7 @@ TEXTS = {
  "C12": {"engine": "fjv model", "design_ref": "DESIGN.md §5 C12", "technique": "runtime monitoring: per-keyspace reference maps with unique value tags over lifecycle programs",
          "text": "Lifecycle programs (create, delete, re-create, stale handles, reopen) with globally unique value tags; every keyspace is compared with its own reference after each lifecycle step, so any leak between keyspaces or resurrection of deleted content shows up as a foreign key/value.",
          "note": _model_note},
+ "C17": {"engine": "fjv life", "design_ref": "DESIGN.md §5 C17", "technique": "runtime monitoring: lock/lifecycle oracle with in-process and child-process openers, directory digests, /proc thread census, drop watchdog",
+         "text": "Hundreds of seeded handle lifecycles across threads with second-open probes from the same and from a child process, version-marker fuzz over four directory states with before/after directory digests, and a failing-background-worker scenario whose drop is watched from outside the process.",
+         "note": "Trusted base: flock semantics of the kernel, the directory digest (names, sizes, content up to the zero padding), /proc/self/task thread names. Reach bounded by the generated lifecycles."},
 }
